@@ -67,6 +67,7 @@ class Recorder:
         self.gen_stack = {}      # thread name -> stack of [op, pat] being generated
         self.enabled = True
         self.compiles = 0
+        self.compiled_sources = set()
         self.yield_hook = yield_hook     # cooperative scheduler: called at every dict operation
 
     def tname(self):
@@ -187,9 +188,24 @@ def _audit(event, args):
     # the audit hook is called from inside compile(); the caller frame is the python frame that called it
     fname = f.f_code.co_filename
     if fname.endswith('kingdon/codegen.py') or fname.endswith('kingdon\\codegen.py'):
+        # what is compiled: name of the generated function and a digest of its source text; `again` = the very same text
+        # was compiled before in this session (one algebra per session)
+        src = args[0] if args else None
+        if isinstance(src, bytes):
+            src = src.decode('utf8', 'replace')
+        name, again = '', False
+        if isinstance(src, str):
+            import re as _re
+            import hashlib as _hl
+            m = _re.search(r'def\s+(\w+)\s*\(', src)
+            name = m.group(1) if m else ''
+            key = (name, _hl.md5(src.encode()).hexdigest())
+            with r.lock:
+                again = key in r.compiled_sources
+                r.compiled_sources.add(key)
         with r.lock:
             r.compiles += 1
-        r.log('Compile', where=f.f_code.co_name, where2=(f.f_back.f_code.co_name if f.f_back else ''))
+        r.log('Compile', where=f.f_code.co_name, where2=(f.f_back.f_code.co_name if f.f_back else ''), fname=name, again=again)
 
 
 def install(rec):
